@@ -292,6 +292,43 @@ pub fn run_gov(gov: &str, topics: &[&str], k128: bool, lens: &[usize], depth: &D
         }
       }
     }
+    // a second token message for a writer that is keyed already, carrying other key material (another topic's
+    // writer's): whether the plug-in refuses it or not, what the registered writer sends must go on decoding
+    {
+      let n = p.flows.len();
+      let g = (f + 1) % n;
+      let prot = |i: usize| p.flows[i].r_attrs.is_payload_protected || p.flows[i].r_attrs.is_submessage_protected;
+      if g != f && prot(f) && prot(g) {
+        st.cases += 1;
+        let other = p.s.h.get_plugins().create_local_writer_crypto_tokens(p.flows[g].w, p.flows[g].r);
+        if let Ok(tokens) = other {
+          let (w, r) = (p.flows[f].w, p.flows[f].r);
+          let refused = p.r.h.get_plugins().set_remote_writer_crypto_tokens(w, r, tokens).is_err();
+          let len = 9;
+          let (sn, dgs) = p.send_real(f, len, false);
+          st.encodings += dgs.len() as u64;
+          let before = p.cache(f);
+          for d in &dgs {
+            p.inject(d);
+          }
+          let new: Vec<_> = p.cache(f).into_iter().filter(|x| !before.contains(x)).collect();
+          let mut want = vec![0u8, 1, 0, 0];
+          want.extend(body_bytes(len));
+          tally(&mut st, if new.len() == 1 { "data" } else { "rejected" });
+          if refused && !(new.len() == 1 && new[0].0 == sn && strip_pad(&new[0].1, &want) == &want[..]) {
+            st.problems.push(Problem {
+              key: format!("C16:roundtrip:after-refused-rekey:{lvl}"),
+              case: format!("{gov} {topic}: a second set of writer tokens (those of {}) was refused", topics[g]),
+              what: format!("the refused registration nevertheless replaced the keys: the registered writer's next sample (sn {sn}) did not arrive at the authorised reader (cache gained {:?})", new.iter().map(|(s, b)| (*s, b.len())).collect::<Vec<_>>()),
+            });
+          }
+          if !refused {
+            // accepted: the writer is now known under the other key material - re-key properly for what follows
+            let _ = p.rematch(f, false);
+          }
+        }
+      }
+    }
     // the remote endpoints are unmatched and matched again while their participants live on: what is sent
     // afterwards must decode like before (twice: stale state of the first re-match must not spoil the second)
     for round in 1..=2 {
